@@ -152,6 +152,9 @@ def check_one(spec, style, st, res, env, via_draw=False):
     res.count("specs judged")
     if verdict == "ok":
         res.count("accepted by the reference grammar")
+        if got in ("MemoryError", "OverflowError") and max(info["pad_width"], info["pad_height"]) > 100000:
+            res.count("accepted specs with absurd padding sizes (resource limit, not judged)")
+            return
         if got != "ok":
             res.violation("C19:rejected-valid:%s" % style, "%s spec %r is a sentence of the grammar but raised %s" % (style, spec, got), dict(spec=spec, style=style))
             return
